@@ -203,6 +203,45 @@ def _slice_kind(sub: ast.Subscript, width: str = "width"):
     return "other"
 
 
+def _too_wide_excluded(fs):
+    """Over the atoms C = `crop`, G = `len(unparsed) > width`, E = `len(unparsed) == width` (E excludes G): is (not C and G) inconsistent with the known facts?
+    Returns (excluded, texts of the facts that were understood)."""
+    import itertools
+
+    def ev(e, env):
+        if isinstance(e, ast.Name) and e.id == "crop":
+            return env["C"]
+        if isinstance(e, ast.UnaryOp) and isinstance(e.op, ast.Not):
+            return not ev(e.operand, env)
+        if isinstance(e, ast.BoolOp):
+            vals = [ev(v, env) for v in e.values]
+            return all(vals) if isinstance(e.op, ast.And) else any(vals)
+        if isinstance(e, ast.Compare) and len(e.ops) == 1:
+            l, r, op = src(e.left), src(e.comparators[0]), type(e.ops[0])
+            if (l, r) == ("width", "len(unparsed)"):
+                l, r = r, l
+                op = {ast.Lt: ast.Gt, ast.Gt: ast.Lt, ast.LtE: ast.GtE, ast.GtE: ast.LtE}.get(op, op)
+            if (l, r) == ("len(unparsed)", "width"):
+                return {ast.Gt: env["G"], ast.LtE: not env["G"], ast.Eq: env["E"], ast.NotEq: not env["E"], ast.GtE: env["G"] or env["E"], ast.Lt: not env["G"] and not env["E"]}[op]
+        raise KeyError(src(e))
+
+    understood = []
+    for f_ in fs:
+        try:
+            node = ast.parse(f_.text, mode="eval").body
+            ev(node, {"C": True, "G": False, "E": False})
+            understood.append((node, f_.positive, str(f_)))
+        except (KeyError, SyntaxError):
+            continue
+    for C, G, E in itertools.product([False, True], repeat=3):
+        if G and E:
+            continue
+        env = {"C": C, "G": G, "E": E}
+        if all(ev(n, env) == pos for n, pos, _ in understood) and not C and G:
+            return False, [t for _, _, t in understood]
+    return True, [t for _, _, t in understood]
+
+
 def rule_j3(ctx):
     """crop / ljust / rjust: the text that is parsed for the replacement has exactly the requested width (and is the right end of the padded text)."""
     m = ctx.repo.module(PRED, "C20.J3")
@@ -241,9 +280,21 @@ def rule_j3(ctx):
     tv = [r for r in walk_local(f) if isinstance(r, ast.Return) and src(r.value) == "SemPredEvalResult(True)"]
     ok = len(tv) == 1 and has_fact(facts(tv[0]), "len(unparsed) == width")
     ctx.check(ok, "J3-just", c, "True exactly when the text already has the requested width", site(f), "verdict True must be under len(unparsed) == width", "len(unparsed) == width")
-    asr = [a for a in walk_local(f) if isinstance(a, ast.Assert) and src(a.test) == "crop or len(unparsed_output) == width"]
-    ctx.check(len(asr) == 1, "J3-just", c, "without crop the padded text has exactly the requested width", site(f), "assertion `crop or len(unparsed_output) == width` missing", "asserted")
     ps = [x for x in calls_in(f) if call_name(x) == "parser"]
+    # without cropping, padding cannot shorten the text: a text wider than `width` must get a verdict before the replacement is built.  An `assert` is not a verdict
+    # (it raises, or vanishes under -O and lets the too wide tree through).
+    if len(ps) == 1:
+        excluded, used = _too_wide_excluded([x for x in facts(ps[0]) if x.kind != "assert"])
+        if excluded:
+            ctx.ok("J3-just-too-wide", c, "no replacement is built for (not crop, text wider than width)", site(ps[0]), "; ".join(used))
+        else:
+            only_assert = any(isinstance(a, ast.Assert) and " ".join(src(a.test).split()) == "crop or len(unparsed_output) == width" for a in walk_local(f))
+            if only_assert or not used:
+                ctx.viol("J3-just-too-wide", c, "no replacement is built for (not crop, text wider than width)", site(ps[0]),
+                         "ljust/rjust WITHOUT crop reach the replacement with a text that is already wider than `width`: str.ljust/rjust return it unchanged, so the predicate "
+                         "raises AssertionError (or, with -O, proposes the unchanged, too wide tree) instead of answering False - e.g. ljust(\"ab\", 1, \" \")")
+            else:
+                raise Unrecognised("C20.J3", c, f"guards before the replacement not understood: {used}")
     ok = len(ps) == 1 and src(ps[0].args[0]) == "unparsed_output" and any(isinstance(a, ast.Assign) and src(a.targets[0]) == "parser" and src(a.value) == "mk_parser(tree.value)" for a in walk_local(f))
     ctx.check(ok, "J3-just", c, "replacement parsed from the padded/cropped text with the tree's own nonterminal", site(f), "parser(unparsed_output) with mk_parser(tree.value)", "own nonterminal")
     g = ctx.repo.func(PRED, "crop", "C20.J3")
@@ -293,6 +344,47 @@ def late_binding_sites(tree: ast.AST):
     return out
 
 
+def rule_j5(ctx):
+    """crop / just build the replacement by parsing the cropped or padded text with the parser of the argument's nonterminal.  That text need not be in the nonterminal's
+    language (width 0 for a nonterminal that does not derive "", a fill character outside the language): the parse failure must become a verdict, not an exception."""
+    from .c05 import _in_try_catching
+
+    n = 0
+    for name in ("crop", "just"):
+        f = ctx.repo.func(PRED, name, "C20.J5")
+        c = f"{PRED}:{name}"
+        for call in [x for x in calls_in(f) if call_name(x) == "parser"]:
+            n += 1
+            ok = _in_try_catching(call, ("SyntaxError",), f)
+            ctx.check(ok, "J5-unparseable-replacement", c, f"{' '.join(src(call).split())[:50]} under a SyntaxError handler", site(call),
+                      f"`{' '.join(src(call).split())[:60]}` raises SyntaxError when the cropped/padded text is not derivable from the argument's nonterminal "
+                      "(crop(tree, 0) where the nonterminal does not derive the empty string): the exception leaves the predicate, and solve(), instead of the verdict False",
+                      "parse failure handled")
+            if ok:
+                # the handler answers False (no replacement exists)
+                cur = call
+                while not (isinstance(getattr(cur, "_parent", None), ast.Try) and cur in cur._parent.body):
+                    cur = cur._parent
+                hs = [h for h in cur._parent.handlers]
+                good = all(any(isinstance(r, ast.Return) and src(r.value) == "SemPredEvalResult(False)" for r in ast.walk(h)) for h in hs)
+                ctx.check(good, "J5-unparseable-replacement", c, "handler answers False", site(hs[0]), "the handler of the parse failure does not return SemPredEvalResult(False)", "SemPredEvalResult(False)")
+    if n < 2:
+        raise Unrecognised("C20.J5", PRED, f"only {n} replacement parses found in crop/just (expected 2)")
+    # the same obligation for the two converting handlers of octal_to_decimal: the converted number is parsed with the other argument's nonterminal
+    k = 0
+    for name in ("octal_to_dec_concrete_octal", "octal_to_dec_concrete_decimal"):
+        f = ctx.repo.func(PRED, name, "C20.J5")
+        params = [a.arg for a in f.args.args]
+        for call in [x for x in calls_in(f, include_nested=False) if isinstance(x.func, ast.Name) and x.func.id in params[2:]]:
+            k += 1
+            ok = _in_try_catching(call, ("SyntaxError",), f)
+            ctx.check(ok, "J5-unparseable-replacement", f"{PRED}:{name}", f"{' '.join(src(call).split())[:50]} under a SyntaxError handler", site(call),
+                      f"`{' '.join(src(call).split())[:60]}` raises SyntaxError when the other argument's nonterminal does not derive the converted number "
+                      "(a one-digit decimal nonterminal and the octal number 17): the exception leaves the predicate instead of the verdict False", "parse failure handled")
+    if k < 2:
+        raise Unrecognised("C20.J5", PRED, f"only {k} replacement parses found in the octal handlers (expected 2)")
+
+
 def rule_j4(ctx):
     """No predicate (or any other stored callable) is built from a closure that captures a loop variable by reference.  Expected count on today's tree: zero."""
     from ..callgraph import SRC_ISLA
@@ -315,6 +407,7 @@ def rule_j4(ctx):
 
 
 def run(ctx) -> str:
+    ctx.guarded("J5", lambda: rule_j5(ctx))
     ctx.guarded("J4", lambda: rule_j4(ctx))
     ctx.guarded("J3", lambda: rule_j3(ctx))
     ctx.guarded("J", lambda: rule_j(ctx))
